@@ -651,6 +651,7 @@ def analytic_cases(ctx):
         m = gen_model(rng, nd=nd, ns=ns)
         for sp in ("signal", "data", "auto"):
             out.append({"kind": "analytic", "model": m, "space": sp})
+        out.append({"kind": "analytic", "model": m, "space": "signal", "impl": "classic"})
     return out
 
 
@@ -658,6 +659,17 @@ def run_analytic(c):
     import tempfile
     m = c["model"]
     nd, ns = np.array(m["R"]).shape
+    if c.get("impl") == "classic":
+        import nifty.cl as ift
+        ham, sl = _classic_objects(m)
+        _, _, logZ, _, Lam, _, _ = model_objects(m)
+        with tempfile.TemporaryDirectory(dir=scratch()) as tmp:
+            e, st = ift.estimate_evidence_lower_bound(ham, sl, 1, compute_all=True, analytic_prior_term=True, verbose=False,
+                                                      output_directory=tmp)
+            ev = np.load(os.path.join(tmp, "metric_signal_eigenvalues.npy"))
+        f = lambda x: float(np.asarray(x.asnumpy())) if hasattr(x, "asnumpy") else float(x)
+        return {"is_data": False, "ev": ev, "stats": {k: f(v) for k, v in st.items()}, "logZ": logZ,
+                "trinv": float(np.trace(np.linalg.inv(Lam))), "nd": nd, "ns": ns}
     with tempfile.TemporaryDirectory(dir=scratch()) as tmp:
         o = run_elbo(m, 1, outdir=tmp, compute_all=True, analytic_prior_term=True, trace_log_space=c["space"], metric_jit=False)
         fd, fs = os.path.join(tmp, "metric_data_eigenvalues.npy"), os.path.join(tmp, "metric_signal_eigenvalues.npy")
@@ -670,17 +682,81 @@ def run_analytic(c):
 
 def analytic_checks(c, o):
     sp = {"signal": "SpSignal", "data": "SpData", "auto": "SpAuto"}[c["space"]]
-    return [("space", "space_case %s %d %d %s" % (sp, o["nd"], o["ns"], C.cbool(o["is_data"]))),
+    extra = []
+    if not o["is_data"] and "trace_inv_const" in o["stats"]:
+        extra.append(("trace-const", "trace_const_case %d %d %s" % (o["ns"], min(o["nd"], o["ns"]), C.cq(o["stats"]["trace_inv_const"]))))
+    return extra + [("space", "space_case %s %d %d %s" % (sp, o["nd"], o["ns"], C.cbool(o["is_data"]))),
             ("trace-inv", "trace_inv_case %s %d %d %s %s %s" % (sp, o["nd"], o["ns"], C.cq(TOL), cql(o["ev"]), C.cq(o["stats"]["trace_inv_exact"])))]
 
 
 def analytic_failure(c, o):
     st = o["stats"]
-    tag = "analytic_prior_term=True, trace_log_space=%r, %d data / %d parameters" % (c["space"], o["nd"], o["ns"])
+    tag = "%s analytic_prior_term=True, trace_log_space=%r, %d data / %d parameters" % (
+        "nifty.cl" if c.get("impl") == "classic" else "nifty.re", c["space"], o["nd"], o["ns"])
     if abs(st["trace_inv_total"] - o["trinv"]) > 1e-8 * max(1.0, o["trinv"]):
         return ("elbo-analytic-prior", "%s: Tr(Lambda^-1) is reported as %.12g, exact %.12g" % (tag, st["trace_inv_total"], o["trinv"]))
     if abs(st["elbo_mean"] - o["logZ"]) > 1e-8 * max(1.0, abs(o["logZ"])):
         return ("elbo-analytic-prior", "%s: ELBO %.12g differs from the closed-form log-evidence %.12g" % (tag, st["elbo_mean"], o["logZ"]))
+    if st["elbo_mean"] > o["logZ"] + 1e-8 * max(1.0, abs(o["logZ"])):
+        return ("elbo-analytic-prior", "%s: ELBO %.12g exceeds the log-evidence %.12g" % (tag, st["elbo_mean"], o["logZ"]))
+    return None
+
+
+# --------------------------------------------------------------------------------------------------
+# resume from an over-complete eigensystem given in ascending order
+# --------------------------------------------------------------------------------------------------
+
+def resume_over_cases(ctx):
+    rng = ctx.rng(3408)
+    out = []
+    for (nd, ns, k) in ([(5, 6, 2), (6, 4, 3)] if ctx.quick else [(5, 6, 2), (6, 4, 3), (6, 7, 4), (4, 4, 1)]):
+        m = gen_model(rng, nd=nd, ns=ns)
+        R = np.array(m["R"])
+        for i in range(min(nd, ns)):
+            R[i, i] += (i + 1) * 1.5
+        m["R"] = R.tolist()
+        for impl in ("jax", "classic"):
+            out.append({"kind": "resume_over", "model": m, "k": k, "impl": impl})
+    return out
+
+
+def run_resume_over(c):
+    """all eigenpairs from a compute_all run, handed back in ASCENDING order (numpy.linalg.eigh convention)
+    with a smaller n_eigenvalues: must equal the one-go run with n_eigenvalues."""
+    import tempfile
+    m, k = c["model"], int(c["k"])
+    nd, ns = np.array(m["R"]).shape
+    nrel = min(nd, ns)
+    cc = {"model": m, "k": nrel, "nb": 1, "impl": c["impl"], "space": "signal"}
+    with tempfile.TemporaryDirectory(dir=scratch()) as tmp:
+        _one_elbo(cc, {}, outdir=tmp)
+        ev = np.load(os.path.join(tmp, "metric_signal_eigenvalues.npy"))
+        vecs = np.load(os.path.join(tmp, "metric_signal_eigenvectors.npy"))
+    asc = np.argsort(ev)
+    ck = {"model": m, "k": k, "nb": 2, "impl": c["impl"], "space": "signal"}
+    ref = _one_elbo(ck, {})
+    res = _one_elbo(ck, {"resume_eigenvalues": ev[asc].copy(), "resume_eigenvectors": vecs[:, asc].copy()})
+    out = {"ref": ref, "res": res, "ev_given": ev[asc], "nrel": nrel, "ns": ns}
+    if c["impl"] == "jax":
+        o = run_elbo(m, k, n_batches=2, min_lh_eval=-1.0, metric_jit=False,
+                     resume_eigenvalues=ev[asc].copy(), resume_eigenvectors=vecs[:, asc].copy())
+        out["samples"], out["hs"], out["lower"] = o["samples"], o["hs"], o["stats"]["lower_error"]
+    return out
+
+
+def resume_over_checks(c, o):
+    if c["impl"] != "jax":
+        return []
+    return [("resume-over", "resume_over_case %d %d %d %s %s %s %s %s" % (
+        o["nrel"], o["ns"], int(c["k"]), cql(np.log(o["ev_given"])), cql(o["hs"]), C.cq(TOL), C.cq(o["lower"]), cql(o["samples"])))]
+
+
+def resume_over_failure(c, o):
+    a, r = o["ref"], o["res"]
+    for name, x, y in (("elbo_mean", a[0], r[0]), ("lower_error", a[1], r[1]), ("elbo_lw", a[2], r[2])):
+        if abs(x - y) > 1e-8 * max(1.0, abs(x)):
+            return ("elbo-resume", "%s ELBO with n_eigenvalues=%d resumed from all %d eigenpairs in ascending order: %s = %.12g, one go %.12g" % (
+                c["impl"], c["k"], o["nrel"], name, y, x))
     return None
 
 # --------------------------------------------------------------------------------------------------
@@ -723,6 +799,8 @@ def direct_failure(c):
         return slq_elbo_failure(c, run_slq_elbo(c))
     if k == "options":
         return options_failure(c, run_options(c))
+    if k == "resume_over":
+        return resume_over_failure(c, run_resume_over(c))
     if k == "gauss":
         return gauss_failure(c, run_gauss(c))
     if k == "analytic":
@@ -847,7 +925,7 @@ class C34(C.Check):
         checks, meta, dist = [], [], {}
         self.cases = []
         nontriv = set()
-        cases = [c for c in ctx.corpus() if c.get("kind") in ("lanczos", "elbo", "resume", "slq_elbo", "options", "gauss", "analytic")] + lanczos_cases(ctx) + elbo_cases(ctx) + resume_cases(ctx) + slq_elbo_cases(ctx) + option_cases(ctx) + gauss_cases(ctx) + analytic_cases(ctx)
+        cases = [c for c in ctx.corpus() if c.get("kind") in ("lanczos", "elbo", "resume", "slq_elbo", "options", "gauss", "analytic", "resume_over")] + lanczos_cases(ctx) + elbo_cases(ctx) + resume_cases(ctx) + slq_elbo_cases(ctx) + option_cases(ctx) + gauss_cases(ctx) + analytic_cases(ctx) + resume_over_cases(ctx)
         self.extra_obs = []
         self.resume_obs = []
         self.opt_obs = []
@@ -864,6 +942,11 @@ class C34(C.Check):
                     cs = gauss_checks(c, o)
                     self.extra_obs.append((c, o, gauss_failure))
                     nontriv.add(("gauss", o["n"], c["order"], tuple(int(np.sum(np.abs(np.diagonal(T, 1)) > 0)) for T in o["Ts"])))
+                elif c["kind"] == "resume_over":
+                    o = run_resume_over(c)
+                    cs = resume_over_checks(c, o)
+                    self.extra_obs.append((c, o, resume_over_failure))
+                    nontriv.add(("resume_over", c["impl"], c["k"], o["nrel"]))
                 elif c["kind"] == "analytic":
                     o = run_analytic(c)
                     cs = analytic_checks(c, o)
@@ -914,7 +997,7 @@ class C34(C.Check):
         self.bad_cases = [meta[i][1] for i in bad]
         res.coverage.update({
             "evaluations": len(checks), "distinct_nontrivial": len(nontriv),
-            "rule": "SPD matrices B B^T + D with small-integer entries, diagonal ones, ones with two distinct eigenvalues (early breakdown), n = 2..6, integer start vectors (also inside invariant subspaces), order 1..n: alphas, basis vectors and every residual norm against the exact model; linear Gaussian models (3-5 data, 4-6 parameters), k < all eigenvalues in 1-3 batches: ELBO samples, lower_error, batch sizes fresh and resumed; resume suite: one-go run with saved eigensystem, then a resumed run from EVERY split point 1..k-1, nifty.re in signal and data space and nifty.cl, k < all and k = all eigenvalues: eigsh batch sizes against the model's schedule, exactly; distinct = (kind, n, order, breakdown) resp. (kind, k, batches) resp. (impl, space, k, batches, split, observed sizes); gauss: _gauss_unit with discard_eigs_below on tridiagonals zero-padded after a breakdown (diagonal / degenerate matrices, order = n and n + 2) against gauss_sum over the eigen-decomposition; analytic: analytic_prior_term with trace_log_space signal / data / auto on models with fewer and with more data than parameters: resolved space and trace_inv_exact from the saved eigenvalues; options: compute_all x verbose x n_eigenvalues below/at/above the relevant dofs x n_batches in nifty.re and nifty.cl: number of eigenvalues that entered (saved eigensystem) or ValueError against effective_n; pure-SLQ ELBO (n_eigenvalues = 0) on non-square and square models in both spaces with the default and an over-large order: the order handed to _slq_gauss_radau against clamp_order, exactly",
+            "rule": "SPD matrices B B^T + D with small-integer entries, diagonal ones, ones with two distinct eigenvalues (early breakdown), n = 2..6, integer start vectors (also inside invariant subspaces), order 1..n: alphas, basis vectors and every residual norm against the exact model; linear Gaussian models (3-5 data, 4-6 parameters), k < all eigenvalues in 1-3 batches: ELBO samples, lower_error, batch sizes fresh and resumed; resume suite: one-go run with saved eigensystem, then a resumed run from EVERY split point 1..k-1, nifty.re in signal and data space and nifty.cl, k < all and k = all eigenvalues: eigsh batch sizes against the model's schedule, exactly; distinct = (kind, n, order, breakdown) resp. (kind, k, batches) resp. (impl, space, k, batches, split, observed sizes); gauss: _gauss_unit with discard_eigs_below on tridiagonals zero-padded after a breakdown (diagonal / degenerate matrices, order = n and n + 2) against gauss_sum over the eigen-decomposition; analytic: analytic_prior_term with trace_log_space signal / data / auto on models with fewer and with more data than parameters: resolved space and trace_inv_exact from the saved eigenvalues; resume_over: all eigenpairs handed back in ascending order with a smaller n_eigenvalues (both APIs; nifty.re: ELBO samples and lower_error against resume_select); analytic also for nifty.cl (trace_inv_const); options: compute_all x verbose x n_eigenvalues below/at/above the relevant dofs x n_batches in nifty.re and nifty.cl: number of eigenvalues that entered (saved eigensystem) or ValueError against effective_n; pure-SLQ ELBO (n_eigenvalues = 0) on non-square and square models in both spaces with the default and an over-large order: the order handed to _slq_gauss_radau against clamp_order, exactly",
             "samples": [_js({k: v for k, v in c.items() if not k.startswith("_")}) for c in self.cases[:2]],
             "input_distribution": dist, "disagreements": len(bad), "exhaustive": False,
         })
@@ -926,7 +1009,7 @@ class C34(C.Check):
         todo = [c for c in getattr(self, "bad_cases", [])]
         n_hints = len(todo)
         todo += [c for c in ctx.corpus() if c.get("kind") in ("slq", "elbo_full")]
-        todo += [c for c in getattr(self, "cases", []) if c.get("kind") not in ("resume", "slq_elbo", "options", "gauss", "analytic")]
+        todo += [c for c in getattr(self, "cases", []) if c.get("kind") not in ("resume", "slq_elbo", "options", "gauss", "analytic", "resume_over")]
         n_res = 0
         for c, o, fail in getattr(self, "extra_obs", []):
             n_res += 1
